@@ -744,3 +744,41 @@ val init_wstate : z -> z -> wstate
 val render : ropts -> z -> z -> chunk list -> sym list
 
 val realise : z list -> sym list -> z list
+
+val is_blank : z -> bool
+
+val is_eol : z -> bool
+
+val skip_blanks : z list -> z list
+
+val parse_newline : z list -> z list option
+
+val off_newlines : nat -> z list -> nat * z list
+
+val take_line : z list -> z list * z list
+
+type rchunk =
+| RIgnored of z list
+| RNewline of nat
+
+val scan_off : (z list -> bool) -> nat -> z list -> rchunk list * z list
+
+val lines : z list -> z list list
+
+val nonblank : z list -> bool
+
+val prefix_of : z list -> z list -> bool
+
+val contains : z list -> z list -> bool
+
+val pragma_sp : z list
+
+val pragma_tab : z list
+
+val sp_endasm : z list
+
+val tab_endasm : z list
+
+val hash_endasm : z list
+
+val ends_plain : z list -> z list -> bool
